@@ -207,6 +207,19 @@ pub fn layouts(thorough: bool) -> Vec<(String, in_toto::models::LayoutMetadata)>
             }
         }
     }
+    // rule lists and command lists with several and with repeated elements (order and multiplicity are content)
+    {
+        let (r1, r2, r3) = (ArtifactRule::Create(world::vpath("a")), ArtifactRule::Disallow(world::vpath("*")), ArtifactRule::Match { pattern: world::vpath("a"), in_src: None, with: Artifact::Products, in_dst: None, from: "s".into() });
+        for (n, rules) in [("r1,r2", vec![r1.clone(), r2.clone()]), ("r2,r1", vec![r2.clone(), r1.clone()]), ("r1,r1", vec![r1.clone(), r1.clone()]), ("r1,r2,r1", vec![r1.clone(), r2.clone(), r1.clone()]), ("r3,r3,r2", vec![r3.clone(), r3.clone(), r2.clone()]), ("r1,r2,r3,r2,r1", vec![r1.clone(), r2.clone(), r3.clone(), r2.clone(), r1.clone()])] {
+            let mut st = world::step("s", 1, &[]).expected_command(vec!["a".to_string(), "a".to_string(), "b".to_string(), "a".to_string()].into());
+            let mut insp = Inspection::new("i").run(vec!["x".to_string(), "x".to_string()].into());
+            for r in &rules {
+                st = st.add_expected_material(r.clone()).add_expected_product(r.clone());
+                insp = insp.add_expected_material(r.clone());
+            }
+            out.push((format!("rule-list:{n}"), world::layout(vec![st], vec![insp], &[], world::far_future())));
+        }
+    }
     // several steps and inspections
     out.push(("multi".into(), world::layout(vec![Step::new("a"), Step::new("b"), Step::new("a")], vec![Inspection::new("a"), Inspection::new("")], &[kk[0]], world::far_future())));
     out
